@@ -93,7 +93,7 @@ def oracle_scores(gi, n, X, cfg):
 
 
 def gkey(g):
-    return f'{"L" if g.head_left else "R"}/{g.name}'
+    return f'{"M" if getattr(g, "mixed", False) else ("L" if g.head_left else "R")}/{g.name}'
 
 
 def explore(st, gi, n, X, cfg, path, judges):
@@ -160,11 +160,11 @@ def explore(st, gi, n, X, cfg, path, judges):
                 if why:
                     st.violation(f'labels/{"unary" if why.startswith("unary") else "binary"}/{gkey(g)}', f'result {k}: {why}', x=x, tree=repr(t), **base)
                 _count_label_ambiguity(st, t, g)
-        if 'beam' in judges and not amb[c]:
+        if 'beam' in judges and not amb[c] and not getattr(g, 'mixed', False):      # optimality is claimed for head-uniform grammars only
             best = finite[0] if len(finite) else -np.inf
             if res[0][1] is not None and res[0][1] != best:
                 st.violation(f'beam/optimum/{gkey(g)}', f'returned {res[0][1]}, optimum over admitted tags is {best}', x=x, **base)
-        if 'nbest' in judges and not amb[c]:
+        if 'nbest' in judges and not amb[c] and not getattr(g, 'mixed', False):
             got = [r[1] for r in res]
             want = finite[:nbest].tolist()
             if any(s is None for s in got):
